@@ -81,6 +81,7 @@ type rfRun struct {
 	errCalls   int // API calls that reported an error
 	emptyCalls int
 	recovered  int // calls that succeeded after a transient fault ended
+	trace      uint64
 }
 
 func runRFaultOnce(ws *WSeg, prog []ROp, fault *ReadFault, maxReadsPerCall int, label string) *rfRun {
@@ -176,6 +177,7 @@ func runRFaultOnce(ws *WSeg, prog []ROp, fault *ReadFault, maxReadsPerCall int, 
 		out.hung = h
 	}
 	out.reads = ra.Calls() - base
+	out.trace = sched.Trace
 	return out
 }
 
@@ -223,6 +225,7 @@ func runRFaultCase(c *Case, env *Env) *Result {
 		r := runRFaultOnce(ws, rc.Prog, f, R+8, label)
 		res.SubRuns++
 		res.Events += r.reads
+		res.Trace = res.Trace*1099511628211 ^ r.trace
 		kind := ReadFaultNames[f.Kind]
 		if f.Count > 0 {
 			kind += "-transient"
